@@ -36,6 +36,12 @@ def figdesc(plt, ret):
     return d
 
 
+def _seq_objs(a, SP):
+    objs = [SP(s) for s in a["seqs"]]
+    k = a.get("seqs_one_shot")
+    return iter(objs) if k == "iter" else (o for o in objs) if k == "gen" else tuple(objs) if k == "tuple" else objs
+
+
 def run_plot(toks, state):
     """plot <entry> <json-hex args>"""
     import json
@@ -47,6 +53,10 @@ def run_plot(toks, state):
     from . import real
     a = json.loads(real.unhex6(toks[2]))
     entry = toks[1]
+    if a.get("coords_as_str"):
+        a["x"], a["y"] = repr(a["x"]), repr(a["y"])          # numeric strings, which the entry points convert with float()
+    if a.get("seqs_one_shot"):
+        _seqs_one_shot = True
     if a.get("labels") and a.get("labels_as"):
         import numpy as np
         a["labels"] = {"tuple": tuple, "ndarray": np.array}[a["labels_as"]](a["labels"])
@@ -105,10 +115,10 @@ def run_plot(toks, state):
                 ret = plots.save_multiple_phasePlot(a["xs"], a["ys"], fname, a["labels"], saveFormat=a["fmt"], **kw2); saved = fname
             elif entry == "pl_show_multi_phase2":
                 kw2 = dict(kw); kw2.pop("label", None)
-                ret = plots.show_multiple_phasePlot2([SP(s) for s in a["seqs"]], a["labels"], getFig=True, **kw2) if len(a["labels"]) else plots.show_multiple_phasePlot2([SP(s) for s in a["seqs"]], getFig=True, **kw2)
+                ret = plots.show_multiple_phasePlot2(_seq_objs(a, SP), a["labels"], getFig=True, **kw2) if len(a["labels"]) else plots.show_multiple_phasePlot2(_seq_objs(a, SP), getFig=True, **kw2)
             elif entry == "pl_save_multi_phase2":
                 kw2 = dict(kw); kw2.pop("label", None)
-                ret = plots.save_multiple_phasePlot2([SP(s) for s in a["seqs"]], fname, a["labels"], saveFormat=a["fmt"], **kw2); saved = fname
+                ret = plots.save_multiple_phasePlot2(_seq_objs(a, SP), fname, a["labels"], saveFormat=a["fmt"], **kw2); saved = fname
             elif entry == "pl_show_single_uversky":
                 ret = plots.show_single_uverskyPlot(a["y"], a["x"], getFig=True, **kw)
             elif entry == "pl_save_single_uversky":
@@ -121,10 +131,10 @@ def run_plot(toks, state):
                 ret = plots.save_multiple_uverskyPlot(a["ys"], a["xs"], fname, a["labels"], saveFormat=a["fmt"], **kw2); saved = fname
             elif entry == "pl_show_multi_uversky2":
                 kw2 = dict(kw); kw2.pop("label", None)
-                ret = plots.show_multiple_uverskyPlot2([SP(s) for s in a["seqs"]], a["labels"], getFig=True, **kw2) if len(a["labels"]) else plots.show_multiple_uverskyPlot2([SP(s) for s in a["seqs"]], getFig=True, **kw2)
+                ret = plots.show_multiple_uverskyPlot2(_seq_objs(a, SP), a["labels"], getFig=True, **kw2) if len(a["labels"]) else plots.show_multiple_uverskyPlot2(_seq_objs(a, SP), getFig=True, **kw2)
             elif entry == "pl_save_multi_uversky2":
                 kw2 = dict(kw); kw2.pop("label", None)
-                ret = plots.save_multiple_uverskyPlot2([SP(s) for s in a["seqs"]], fname, a["labels"], saveFormat=a["fmt"], **kw2); saved = fname
+                ret = plots.save_multiple_uverskyPlot2(_seq_objs(a, SP), fname, a["labels"], saveFormat=a["fmt"], **kw2); saved = fname
             else:
                 raise KeyError(entry)
         d = figdesc(plt, ret)
